@@ -21,6 +21,7 @@ THEOREMS = [
     'C12.single_fits_512', 'C12.more_counts', 'C12.more_counts_delivery', 'C12.reply_first_batch', 'C12.more_protocol',
     'C12.visible_text_plain', 'C12.flags_ok', 'C12.coherent_nocolour', 'C12.ircWrap_nocolour', 'C12.fits_512_nocolour',
     'C12.visible_text_counterexample', 'C12.chunk_count_partial', 'C12.chunk_count_counterexample',
+    'C12.colour_ok', 'C12.coherent_clean', 'C12.ircWrap_fits_clean', 'C12.fits_512_clean',
 ]
 TRUSTED = ['Lean 4.33.0 kernel; axioms ⊆ {propext, Classical.choice, Quot.sound}',
            'harness/extractors/reply.py (constants of splitBytes, FormatContext, FormatParser, reply, _makeReply → Gen/Reply.lean)',
